@@ -3,4 +3,5 @@ TARGETS = {
     "gennet": dict(flavours=["fast"], src=["tools/gennet.cpp"], net="stub"),
     "c01_movegen": dict(flavours=["seq", "fast"], src=["harness/c01_movegen.cpp"], net="stub"),
     "c02_position": dict(flavours=["seq", "fast"], src=["harness/c02_position.cpp"], net="stub"),
+    "c15_revmovegen": dict(flavours=["seq", "fast"], src=["harness/c15_revmovegen.cpp"], net="stub"),
 }
